@@ -38,11 +38,31 @@ CHECKS = {
    "Silence: after close, close_collection, delete_collection, poison by cancellation, poison by a failed flush and in both read-only modes every mutating API (add, update, remove, flush, save/remove_extension, set_extension+flush, compactions, reconcile, set_read_only(false)+add, close) and the read APIs are called on the retained handle: typed rejection, never Active again, zero effective mutations under the collection prefix, empty prefix after delete. Queued: 1-2 adds in flight/queued while close/close_collection/delete_collection starts, schedules enumerated: nothing writes after the transition returned, accepted adds are reflected after reopen, delete leaves nothing. Cancel: 13 APIs (10 collection-level, 3 database-level) are dropped after k = 1.. polls until completion, with suspension points before and after each landed mutation: handle unchanged-and-Active or Poisoned; poisoned handles reject everything and write nothing; reopening through the database completes, never yields two Active handles, and gives the old or the new state in full (audit); a cancelled delete is finished by a retry.",
    "Suspension points are backend calls and async lock waits (every await in these paths is one of them). Holds for the populations generated.",
    "DESIGN.md C06"),
+ "C07": ("v_store", "exploration",
+   "differential execution against object_store::memory::InMemory with a token ledger (CAS oracle) and a wrapper-internal consistency audit; controlled interleavings at backend calls (gated recorder + manual executor, DFS then random) with a linearizability check; multi-thread stress",
+   "40-call generated sequences (every PutMode incl. stale/foreign/bogus tokens, multipart with straddling parts/abort/drop, every range kind, if_match/if_none_match lists and '*', date conditions alone and paired, get_ranges, three listings on eight prefixes, delete/delete_stream, copy/rename in both modes incl. self and missing source, A->B->A rewrites) are applied to MetaStore / EncryptedStore (chunk 1,7,16,65536; payload sizes around chunk boundaries) and to a bare InMemory, with cold-instance swaps and a lagging second instance; results are compared after normalising opaque tokens and error variants; an independent ledger asserts token uniqueness across commits and keys, Update succeeds iff the token is the key's latest, Create iff absent; head/get/three listings must agree on size, token and timestamp per commit. 22 named scenarios of 2-3 concurrent calls per key plus random call sets run under enumerated schedules (before and after every backend call) and must fit a linearization; the same sets run on a 3-worker runtime.",
+   "Documented deviations from InMemory (delete of a missing key, self-rename, Update without e_tag or with a version, get_ranges past the end, versions) are compared as documented and listed in the evidence assumptions. Sequence space sampled; small schedule spaces exhaustive where the DFS completes.",
+   "DESIGN.md C07"),
  "C10": ("v_idx", "exploration",
    "model-based runtime monitor (BTreeMap oracle after every op) + crash-prefix enumeration of recorded flush writes + controlled thread schedules at verif_point hooks with per-key linearizability checking",
    "Runs the real BTreeIndex under seeded histories with minimum bucket size; after every operation all read APIs (point, keys paging, range trees depth<=3 in both directions with early stop, prefix) are compared with a BTreeMap model and the structural invariant walker runs; every prefix of every flush's bucket/metadata/delete write sequence is loaded and must equal the previous or the new commit exactly (plus failed flush + retry, legacy layout); 2-3 OS threads are scheduled at verif_point hooks (DFS over grant choices, random beyond the budget) and each key's call/return history must be linearizable, the invariant walker must pass and flush+reload must equal memory.",
    "Holds for the executions produced (counts in the evidence file). Interleavings are controlled at hook points only; preemption between arbitrary instructions is sampled by the stress runs. Flush concurrent with mutations is outside the crate's contract and not generated.",
    "DESIGN.md C10"),
+ "C11": ("v_idx", "exploration",
+   "model-based runtime monitor (naive inverted index built with the crate's own tokenizer) + crash-prefix enumeration over recorded flush writes (incl. failed and unknown-outcome flush + retry, legacy layout) + controlled 2-3 thread schedules at verif_point hooks with a per-document linearizability check + hook-yield stress",
+   "40-op histories (insert incl. duplicate id and empty-token text, remove with original / non-original text / missing id, re-insert over stale entries, purge_ids, compaction, flush/reload) over a small vocabulary with tiny buckets; after every op: return value, len/get_doc_tokens/avg length/invariant walker, term queries (set equality with the model, finite non-negative non-increasing scores, ties by id, scores vs the documented Okapi formula at 1e-4, top-k prefix law, repeat agreement), generated boolean trees depth<=3 incl. all-NOT/double negation/top-level NOT (parse round trip + set algebra), an 18-entry out-of-domain BM25 parameter sweep (finite scores, unchanged set); every prefix of every flush's bucket/metadata/delete sequence is loaded and must equal the last or the new commit in load form, plus durable-layout checks; 2-3 threads are scheduled at the 15 bm25.* hook points (budgeted DFS + random) and judged by per-document linearizability, own-document visibility, invariants and flush/reload == memory.",
+   "Histories, boolean trees, parameters and k are sampled; crash prefixes of every generated flush are complete; interleavings are controlled at hook points only. An insert racing a remove of the SAME id is outside the workload (ids are caller-assigned and never reused concurrently by anda_db); recorded as an assumption.",
+   "DESIGN.md C11"),
+ "C12": ("v_idx", "exploration",
+   "per-search soundness oracle against a harness-side bf16 copy with an independent f64 metric + fault enumeration over the recorded flush_with/purge callback sequence + statistical recall monitor (port of tests/recall.rs with independent layer draws) + concurrent stress judged with an interval-liveness oracle",
+   "Histories (insert f32/bf16, duplicate id, remove, missing id, re-insert with a new vector, removal of the entry node, invalid inputs, flush/reload) over dims 2..64, four metrics, both neighbour strategies, reconnect on/off, small M/ef; every search result must be <= k distinct live ids with finite, non-decreasing distances equal to the harness metric (1e-2 rel + 1e-3 abs fixed up front); len/stats/node_ids/stored vectors audited after every op; every prefix of every flush (nodes, ids, metadata, purge deletes, incl. injected write failures and mutations in flight) is loaded: decodable nodes, no committed-removed id reappears, committed untouched ids present, exact equality after the metadata write, soundness audit, a third continue with re-indexing + flush + reload; all six documented recall workloads are re-run with several independent layer draws against their documented floors (heavy_deletions on the mean of 5 draws: its measured lower tail touches the 0.50 floor), plus three interrupted-flush variants at floor - 0.05; two writers + two searchers as OS threads are judged against ids possibly live during each search.",
+   "Node layers come from an unseedable thread RNG: replays re-create operations, not layers. Completeness/self-hit are measured, not asserted (graphs legitimately disconnect without reconnect). Recall is a statistic over sampled draws.",
+   "DESIGN.md C12"),
+ "C14": ("v_server", "exploration",
+   "runtime monitoring of the in-process HTTP service over a recording object store: dispatch table extracted at run time, completely enumerated request matrix, relational 4-world replay (non-interference), lifecycle-state read probes with a mutation-log silence oracle, model-checked key/lifecycle histories",
+   "build_router(AppState) is driven in-process with tower oneshot over RecStore(InMemory). The method table is parsed from the working tree's api/mod.rs at run time (new methods are enumerated automatically; a shrunk or unclassifiable table is inconclusive). Matrix: 20 callers (none, malformed, garbage incl. stored hashes, admin, key A, key B, other key of B, revoked keys, key of a closed db) x 20 paths (root, A, B, unkeyed, primary, closed, missing, traversal/percent-encoded/oversized/invalid-UTF-8/unrouted) x 3 encodings x all table methods + unknown names + oversize body + collection traversal = 62,600 requests, all executed. Oracles: uniform rejection byte-identical to the anonymous 401 (harness model of the auth rules), path-only responses identical for all callers/worlds, no effective mutation and unchanged admin view after rejected requests, accepted db-key requests mutate only under their prefix and leak no foreign names/markers, Read-labelled methods leave no mutation in 7 lifecycle states, every caller without a B-valid key gets byte-identical responses in four worlds differing only in B; generated set/remove_api_key/create/close/open/restart/crash histories are probed after every step against a binding model; restart guards.",
+   "Writes by the documented lazy collection open on first read are counted and confined to the database prefix, then the read is measured on the loaded handle. Clock-dependent statistics fields are masked only in the own-database cross-world comparison. Keyless mode and timing side channels are outside the checked space.",
+   "DESIGN.md C14"),
 }
 
 NOT_YET = {
@@ -80,6 +100,14 @@ def main():
              "kind_free_text": "shared runtime-monitoring machinery: seeded RNG, RecStore (recording/fault/gate ObjectStore), manual executor + DFS/random schedule choosers, OS-thread turn scheduler for verif_point hooks, evidence/verdict writer"},
             {"name": "v_idx", "path": "/verif/harness/v_idx", "serves_properties": ["C10", "C11", "C12"],
              "kind_free_text": "monitors for the index crates (btree, tfs, hnsw)"},
+            {"name": "v_db", "path": "/verif/harness/v_db", "serves_properties": ["C01", "C02", "C03", "C04", "C05", "C06"],
+             "kind_free_text": "fixture F (model + audit + driver + crash machinery) and the anda_db collection monitors"},
+            {"name": "v_store", "path": "/verif/harness/v_store", "serves_properties": ["C07", "C08", "C09"],
+             "kind_free_text": "monitors for MetaStore / EncryptedStore"},
+            {"name": "v_schema", "path": "/verif/harness/v_schema", "serves_properties": ["C13"], "kind_free_text": "schema/document round-trip monitors"},
+            {"name": "v_server", "path": "/verif/harness/v_server", "serves_properties": ["C14"], "kind_free_text": "HTTP service isolation monitors"},
+            {"name": "v_kip", "path": "/verif/harness/v_kip", "serves_properties": ["C15", "C16"], "kind_free_text": "KIP parser monitors"},
+            {"name": "v_nexus", "path": "/verif/harness/v_nexus", "serves_properties": ["C17", "C18", "C19", "C20"], "kind_free_text": "Cognitive Nexus monitors"},
         ],
         "checks": checks,
         "not_applicable": na,
